@@ -42,6 +42,8 @@ func gSentences(c *Ctx, nRandom int, f func(gs gSentence)) {
 		}
 	}
 	g := gen.NewG(r)
+	// names that spell pseudo-keywords (always back-quoted) are generated except where SQL() output is compared (K4)
+	g.PKWNames = c.Prop != "C01" && c.Prop != "C02" && c.Prop != "C06"
 	for i := 0; i < nRandom/ns; i++ {
 		e := gen.StartSymbols[r.IntN(len(gen.StartSymbols))]
 		s := g.Generate(e, 6+r.IntN(10))
@@ -67,5 +69,78 @@ func init() {
 				}
 			}
 		})
+	}
+}
+
+// nearMissWorkload: systematic single-token edits, bracket-group deletions and token moves (1-3 positions) of every
+// sentence of the systematic set in canonical spelling. Most results are rejected; the accepted ones are shapes that
+// neither the grammar nor the corpus contains (clause-order swaps, missing groups). Sharded by sentence.
+func nearMissWorkload(c *Ctx, f func(entry, input string)) {
+	set, _, _ := gen.SystematicSet()
+	r := gen.NewRand(1, 4100)
+	for i, s := range set {
+		if !c.Mine(i) {
+			continue
+		}
+		txt := gen.Render(r, s, gen.RenderOpts{})
+		if len(txt) > 4000 || !gen.RelexGuard(txt, s) {
+			continue
+		}
+		emit := func(m string) {
+			f(s.Entry, m)
+			c.Count("near_miss_inputs", 1)
+		}
+		gen.SystematicEdits(txt, emit)
+		gen.SystematicMoves(txt, emit)
+	}
+	// token moves of every corpus file and of random sentences (pairs of optional clauses that the each-choice set
+	// does not combine)
+	for i, cc := range c.Corpus() {
+		if cc.Bad || !c.Mine(i) {
+			continue
+		}
+		e := cc.Entries()[0]
+		gen.SystematicMoves(cc.Text, func(m string) {
+			f(e, m)
+			c.Count("near_miss_inputs", 1)
+		})
+	}
+	rr := gen.NewRand(c.Seed, 4300+uint64(c.Shard))
+	g := gen.NewG(rr)
+	for i := 0; i < c.Pick(1500, 30000)/max(c.NShards, 1); i++ {
+		s := g.Generate(gen.StartSymbols[rr.IntN(len(gen.StartSymbols))], 4+rr.IntN(6))
+		txt := gen.Render(rr, s, gen.RenderOpts{})
+		if len(txt) > 1500 || !gen.RelexGuard(txt, s) {
+			continue
+		}
+		gen.SystematicMoves(txt, func(m string) {
+			f(s.Entry, m)
+			c.Count("near_miss_inputs", 1)
+		})
+	}
+}
+
+// quotedPKWWorkload: every sentence of the systematic set with one pseudo-keyword token written back-quoted
+// (a back-quoted identifier is never a pseudo keyword; most results are rejected). f gets the word as tag.
+func quotedPKWWorkload(c *Ctx, f func(entry, input, word string)) {
+	set, _, _ := gen.SystematicSet()
+	r := gen.NewRand(1, 4200)
+	idx := 0
+	for _, s := range set {
+		for i, t := range s.Toks {
+			if t.Role != gen.PKW {
+				continue
+			}
+			if c.Mine(idx) {
+				s2 := gen.Sentence{Entry: s.Entry, Toks: append([]gen.Tok(nil), s.Toks...)}
+				s2.Toks[i] = gen.Tok{Role: gen.ID, Text: t.Text, Quote: true}
+				txt := gen.Render(r, s2, gen.RenderOpts{})
+				if len(txt) <= 4000 {
+					f(s.Entry, txt, t.Text)
+					c.Count("quoted_pkw_inputs", 1)
+				}
+			}
+			idx++
+		}
 	}
 }
